@@ -65,6 +65,15 @@ func fetchProfiles(s *source, o *plugin.Options) (*profile.Profile, error) {
 			pbase.SetLabel("pprof::base", []string{"true"})
 		}
 		if s.Normalize {
+			// Normalize requires identical sample types: align the types and
+			// units of source and base first, as the subtraction below does.
+			ps := []*profile.Profile{p, pbase}
+			if err := profile.CompatibilizeSampleTypes(ps); err != nil {
+				return nil, err
+			}
+			if err := measurement.ScaleProfiles(ps); err != nil {
+				return nil, err
+			}
 			err := p.Normalize(pbase)
 			if err != nil {
 				return nil, err
